@@ -47,6 +47,8 @@ def segment_options(dom, kind, thorough):
             opts.append({"segments": [doms[-1]], "include_boundary_dofs": True, "truncate_at_segment_edge": False})
             opts.append({"segments": [doms[0]], "include_boundary_dofs": True, "truncate_at_segment_edge": True})
         if thorough:
+            opts.append({"swapped_normals": [doms[0]]})
+            opts.append({"segments": [doms[-1]], "swapped_normals": [doms[-1]], "include_boundary_dofs": True})
             opts.append({"segments": [doms[0]]})
             opts.append({"segments": doms[:2]})
             if kind in ("P", "RWG", "SNC"):
